@@ -1,6 +1,7 @@
 package rules
 
 import (
+	"go/types"
 	"strings"
 
 	"golang.org/x/tools/go/ssa"
@@ -107,6 +108,64 @@ func c17(c *Ctx) {
 		}
 	}
 	R.Min("R17.1", "limit-relevant insert sites", n, 8)
+
+	// ---- R17.3 all-or-nothing: one operation, one growing transaction ---------------------
+	R.Explain("R17.3", "all-or-nothing (structural part): a call that opens a write transaction (passes a func(ctx, db.Transaction) closure) whose closure can reach a limited insert is not inside a loop of its function — an operation that splits its inserts over several transactions commits the first ones before a later one is refused.")
+	isGrowth := func(cs engine.CallSite) bool {
+		cc := cs.Common()
+		if !cc.IsInvoke() || !engine.IsNamed(cc.Value.Type(), "db", "Transaction") {
+			return false
+		}
+		for i := range table {
+			if table[i].method == cc.Method.Name() {
+				return true
+			}
+		}
+		return false
+	}
+	reachesGrowth := func(root *ssa.Function) bool {
+		for g := range P.Reachable([]*ssa.Function{root}, engine.ReachOpts{FollowClosures: true, OwnOnly: true}) {
+			if !isProductPkg(engine.RelPkg(P.OwnPkgPath(g))) {
+				continue
+			}
+			for _, cs := range engine.Calls(g) {
+				if isGrowth(cs) {
+					return true
+				}
+			}
+		}
+		return false
+	}
+	m := 0
+	for _, f := range c.funcsInPkg("internal/state", "internal/backend", "internal/session") {
+		var loopBlocks map[*ssa.BasicBlock]bool
+		for _, cs := range engine.Calls(f) {
+			var clo *ssa.Function
+			for _, a := range cs.Common().Args {
+				sig, ok := a.Type().Underlying().(*types.Signature)
+				if !ok || sig.Params().Len() != 2 || !engine.IsNamed(sig.Params().At(1).Type(), "db", "Transaction") {
+					continue
+				}
+				clo = engine.FuncValue(a)
+			}
+			if clo == nil || !reachesGrowth(clo) {
+				continue
+			}
+			m++
+			if loopBlocks == nil {
+				loopBlocks = map[*ssa.BasicBlock]bool{}
+				for _, h := range f.Blocks {
+					for b := range engine.LoopBody(h) {
+						loopBlocks[b] = true
+					}
+				}
+			}
+			key := fmtf("%s|write-tx(%s)", c.name(f), clo.Name())
+			R.Check(!loopBlocks[cs.Instr.Block()], "R17.3", key, P.Pos(cs.Pos()), "the growing write transaction is opened once, outside any loop",
+				"a write transaction that inserts limited rows is opened inside a loop: earlier iterations are committed when a later one is refused (partial effect of a refused multi-message operation)")
+		}
+	}
+	R.Min("R17.3", "write transactions that can grow a limited quantity", m, 8)
 
 	k := c.errorsPropagated("R17.2", []string{"internal/state", "internal/backend"}, func(cs engine.CallSite) (string, bool) {
 		if isLimitCheck(cs, "CheckMailBoxCount", "CheckMailBoxMessageCount", "CheckUIDCount", "CheckUIDValidity") {
